@@ -160,6 +160,7 @@ func VerifC09Reuse() {
 				verifrt.Reach("c09.straggler-emitted")
 				verifrt.Assert("c09.straggler.session", e.Metadata.AuditID == g.sid)
 				verifIdentityIs("c09.straggler.identity", e, g.k)
+				verifIdentityIs("c04.after-end.identity", e, g.k) // the same clause is part of C04's statement
 			}
 			continue
 		}
@@ -171,6 +172,7 @@ func VerifC09Reuse() {
 		for i := len(expect); i < len(got); i++ {
 			verifrt.Assert("c09.straggler.session", got[i].Metadata.AuditID == g.sid)
 			verifIdentityIs("c09.straggler.identity", got[i], g.k)
+			verifIdentityIs("c04.after-end.identity", got[i], g.k)
 		}
 		extraAllowed = 0
 		got = got[:len(expect)]
